@@ -13,7 +13,7 @@ def pOptNum : P (Option Q) := do
 
 /-- the result block `ok <tree> <points>` / `panic` -/
 def finishSchema (what : String) (model : Option (PT Q)) (spec : List Q → Option (List Q))
-    (exactIdx : Bool := true) : P Verdict := do
+    (exactIdx : Bool := true) (cmpModel : Bool := true) : P Verdict := do
   expect "|"
   let st ← tok
   if st == "panic" then
@@ -29,6 +29,7 @@ def finishSchema (what : String) (model : Option (PT Q)) (spec : List Q → Opti
   let (bad, inexact) := firstEvalDiff h spec pts
   if let some (x, want, got) := bad then
     return .propfail s!"{what}: at input {showVec x} the definition gives {showOptVec want} but the tree evaluates to {showEval got}"
+  if !cmpModel then return (if inexact then .inexact "eval" else .ok)
   match model with
   | none => return .diverge s!"{what}: model rejects the parameters, implementation built a tree"
   | some m =>
@@ -85,7 +86,7 @@ def judgeC17 : P Verdict := do
     let ff ← if t == "some" then (do pure (some (← pAff))) else pure none
     finishSchema op (if p.mat.length > 0 && p.indim == ft.indim then some (Sch.fromPoly p ft ff) else none)
       (fun x => if Poly.memb p x then some (ft.apply x) else ff.map (fun f => f.apply x))
-  | "slice" =>
+  | "slice" | "sliceP" =>
     let gd ← pTree
     let ref ← pVecOpt
     let some g := gd.abs | return .skip "operand is not a consistent tree"
@@ -97,7 +98,7 @@ def judgeC17 : P Verdict := do
         | some v => v
         | none => y.getD (keep.findIdx (· == j)) 0)
     let m : PT Q := Sch.removeAxes keep (PT.compose (PT.fromAff 2 (Aff.slice ref)) g)
-    finishSchema op (some m) (fun y => PT.eval g (embed y)) false
+    finishSchema op (some m) (fun y => PT.eval g (embed y)) false (op == "slice")
   | _ => throw s!"unknown C17 op {op}"
 
 def nodeStatesIdx (t : PT Q) : List (Nat × NState Q) := t.toArena.map (fun nd => (nd.idx, nd.val.state))
